@@ -72,6 +72,48 @@ def order_monitor(ctx, w, output, res, log, stale):
             ctx.fail("output-not-read-value", "run returned %r for stored output node %d instead of the store's read value" % (res[1], output), rep)
 
 
+def fault_monitor(ctx, w, output, log, k, stale):
+    """A store operation or call failed (fault injected at operation k) in a run that tolerates errors: nothing that
+    consumes or depends on the failed node may start afterwards, its store is not read back, nothing downstream is written."""
+    if k - 1 >= len(log):
+        return
+    kind, ident, _ = log[k - 1]
+    node_of_store = {m["store"]: i for i, m in enumerate(w.meta) if m["store"] is not None}
+    if kind == "call":
+        n = ident
+    elif kind in ("write-begin", "read"):
+        n = node_of_store[ident]
+    else:
+        return
+    if n < 0:
+        return
+    # physical dependencies: an up-to-date registry node is only read (its read depends on nothing); a failed read blocks
+    # the argument consumers only (plain dependents hang off the write)
+    def live(i):
+        return w.meta[i]["store"] is None or i in stale
+    down = {i for i, m in enumerate(w.meta) if live(i) and (n in m["args"] or (kind != "read" and n in m["deps"]))}
+    changed = True
+    while changed:
+        changed = False
+        for i, m in enumerate(w.meta):
+            if i not in down and live(i) and (set(m["args"]) | set(m["deps"])) & down:
+                down.add(i)
+                changed = True
+    down.discard(n)
+    rep = {"meta": w.meta, "output": output, "fault_at": k, "faulted": [kind, ident], "stale": sorted(stale),
+           "log": [(a, b) for a, b, _ in log][:200]}
+    later = log[k:]
+    for kd, idt, _ in later:
+        if kd == "call" and idt in down:
+            ctx.fail("fault:downstream-started", "call %d started although node %d it depends on failed (%s)" % (idt, n, kind), rep)
+        if kd == "write" and node_of_store.get(idt) in down:
+            ctx.fail("fault:downstream-written", "store of node %d was written although node %d it depends on failed" % (node_of_store[idt], n), rep)
+        if kind in ("call", "write-begin") and kd == "read" and node_of_store.get(idt) == n and n in stale:
+            ctx.fail("fault:read-after-failed-write", "store of node %d was read back although its %s failed" % (n, "computation" if kind == "call" else "write"), rep)
+        if kind == "call" and kd == "write" and node_of_store.get(idt) == n:
+            ctx.fail("fault:write-after-failed-call", "store of node %d was written although its call failed" % n, rep)
+
+
 def run(ctx):
     uj = core.use_repo()
     rng = ctx.rng
@@ -84,6 +126,7 @@ def run(ctx):
         for step in range(ctx.n(4, 6)):
             output = rng.choice([None] + list(range(w.n)))
             fresh = cache_corr.random_fresh(w, rng)
+            saved0 = [(s_.v, s_.t) for s_ in w.stores]
             tc.observe(w, output, fresh, [wi, step])
             stale = set(w._stale_now)
             # an identity transform_physical callback must not change anything (it receives the redirected output node)
@@ -94,6 +137,15 @@ def run(ctx):
             w.slow_writes = 0
             ctx.count("transform_physical", tp is not None)
             order_monitor(ctx, w, output, res, list(w.log), stale)
+            if rng.random() < 0.5 and w.opcount > 0 and res[0] == "ok":
+                # the same kind of run with a fault injected at a random operation and errors tolerated
+                k = rng.randrange(1, w.opcount + 1)
+                for s_, (v, t) in zip(w.stores, saved0):      # the same store state as before the run above
+                    s_.v, s_.t = v, t
+                resf = w.run(output, fresh, workers=rng.choice([1, 3]), scheduler=rng.choice([None, "random"]),
+                             max_errors=rng.choice([1, 3, None]), fault_at=k)
+                fault_monitor(ctx, w, output, list(w.log), k, stale)
+                ctx.count("fault_runs", resf[0])
             ctx.case((wi, step, tuple(str(x) for x in w.sigma()), output, fresh), nontrivial=len(stale) > 0,
                      sample={"meta": w.meta, "stale": sorted(stale), "log": [(a, b) for a, b, _ in w.log][:40]} if wi == 2 and step == 1 else None)
             ctx.count("stale_count", len(stale))
